@@ -43,7 +43,9 @@ SMALL_CORPUS = [
 # specially (quotes, backslash, interpolation, escapes, digits/exponent, comment, line ends, NUL) and characters of 2 and 4
 # bytes, placed bare and inside each lexical context that scans character by character
 CHARS = ["'", '"', "\\", "$", "{", "}", "\u00e9", "\U0001F600", "\n", "n", "u", "1", "a", "/", "*", " ", ".", "e", "\r", "\t", "\x00", "@", "-", "x"]
-CHAR_CTX = [("bare", "%s"), ("sq", "'%s'"), ("dq", '"%s"'), ("interp", "'a${%s}b'"), ("comment", "// %s\n1;"), ("number", "1%s"), ("ident", "let v%s = 1;")]
+CHAR_CTX = [("bare", "%s"), ("sq", "'%s'"), ("dq", '"%s"'), ("interp", "'a${%s}b'"), ("comment", "// %s\n1;"), ("number", "1%s"), ("ident", "let v%s = 1;"),
+            # the input ends inside the construct
+            ("sq_open", "let s = '%s"), ("dq_open", 'let s = "%s'), ("interp_open", "let s = 'a${%s"), ("comment_open", "1; // %s"), ("str_in_call_open", "print('%s")]
 
 
 # structural: every nesting of containers up to a depth bound around every leaf statement (which statement is legal where:
@@ -129,6 +131,16 @@ def boundary_family(thorough):
         out.append(("interpseg%d" % n, "print('" + "".join("${1}" for i in range(n)) + "'.len());"))
         out.append(("blocklocals%d" % n, "fn f() { " + "{ let a = 1; " * n + "}" * n + " } print(1);"))
         out.append(("drops%d" % n, "fn f() { { " + "".join("let v%d = %d; " % (i, i) for i in range(n)) + "} return 1; } print(f());"))
+        # the language has no bare blocks: the scopes that end with n locals are those of if / while / for / try / catch bodies
+        decls = "".join("let v%d = %d; " % (i, i) for i in range(n))
+        out.append(("ifdrops%d" % n, "if true { " + decls + "}\nprint(1);"))
+        out.append(("ifdrops_use%d" % n, "if true { " + decls + "v0; }\nprint(1);"))
+        out.append(("fnifdrops%d" % n, "fn f() { if true { " + decls + "} return 1; } print(f());"))
+        out.append(("whiledrops%d" % n, "let i = 0; while i < 1 { " + decls + "i += 1; }\nprint(1);"))
+        out.append(("fordrops%d" % n, "for i in 1.times() { " + decls + "}\nprint(1);"))
+        out.append(("trydrops%d" % n, "try { " + decls + "} catch e { }\nprint(1);"))
+        out.append(("catchdrops%d" % n, "fn f() { try { raise Error('x'); } catch e { " + decls + "} return 1; } print(f());"))
+        out.append(("breakdrops%d" % n, "fn f() { while true { " + decls + "break; } return 1; } print(f());"))
         out.append(("elif%d" % n, "let x = 5; if x == 0 {}" + "".join(" else if x == %d {}" % i for i in range(n)) + " print(1);"))
     for n in (65534, 65535, 65536, 65537):
         if thorough or n in (65535, 65536):
@@ -140,6 +152,14 @@ def boundary_family(thorough):
     out.append(("bignumber", "print(" + "9" * 400 + ");"))
     out.append(("bigcomment", "// " + "c" * big + "\nprint(1);"))
     out.append(("manylines", "\n" * 70000 + "print(1);"))
+    for ln in (65533, 65534, 65535, 65536, 65537):
+        out.append(("stmt_on_line%d" % ln, "\n" * (ln - 1) + "print(1);\nprint(2);\n"))
+        out.append(("error_on_line%d" % ln, "\n" * (ln - 1) + "let = ;\n"))
+    for nm in ("Object", "Class", "Error", "List", "Map", "String", "Number", "Bool", "Nil", "Iter", "Fun", "Module", "Tuple", "Channel", "Method", "Closure", "Native"):
+        out.append(("class_named_%s" % nm, "class %s {}\nprint(1);" % nm))
+        out.append(("class_named_%s_used" % nm, "class %s { m() { return 1; } }\nprint(%s().m());" % (nm, nm)))
+        out.append(("fn_named_%s" % nm, "fn %s() { return 1; }\nprint(%s());" % (nm, nm)))
+        out.append(("let_named_%s" % nm, "let %s = 1;\nprint(%s, [1].len(), 'a'.len());" % (nm, nm)))
     out.append(("bom", "﻿print(1);"))
     out.append(("nul", "print(1);\x00print(2);"))
     out.append(("crlf", "print(1);\r\nprint('a\r\nb');\r\n"))
@@ -183,7 +203,7 @@ class C15(Check):
                 yield ("seq", " ".join(t))
         # (chars)
         for ctx, tmpl in CHAR_CTX:
-            top = 3 if not th else (4 if ctx in ("bare", "sq", "interp") else 3)
+            top = 3 if not th else (4 if ctx in ("bare", "sq", "interp", "sq_open") else 3)
             for n in range(1, top + 1):
                 for t in itertools.product(CHARS, repeat=n):
                     yield ("chars:" + ctx, tmpl % "".join(t))
